@@ -81,6 +81,7 @@ type task struct {
 	opLimit   int64
 	blockedAt int64 // value of syncEpoch when the task last found its primitive unavailable
 	wakeAt    int64 // > 0 while blocked: asleep until this simulated time (only time makes it eligible)
+	held      int32 // simulated locks this task holds (see Held)
 	prio      int64 // PCT
 	rdv       int32 // woken for a rendezvous on an unbuffered channel (runs one statement without the token)
 	selCase   int32 // ... out of Select: the case it was matched on
@@ -729,7 +730,7 @@ func Y(site int) {
 		return
 	}
 	me := cur
-	if halting {
+	if halting && tasks[me].held <= 0 {
 		panic(HaltAbort{})
 	}
 	Steps++
@@ -805,6 +806,9 @@ func Blocked() {
 		return
 	}
 	if halting {
+		if tasks[cur].held > 0 {
+			LocksLeftHeld++
+		}
 		panic(HaltAbort{})
 	}
 	if Deadlock || Draining {
@@ -830,6 +834,28 @@ func Blocked() {
 		panic(HaltAbort{})
 	}
 }
+
+// Held is called by zzsimsync when the running task has acquired (+1) or
+// released (-1) a lock. When the simulated program exits, a task that is inside
+// a critical section is not unwound on the spot: it runs on until it holds no
+// lock (what it does after the exit is invisible - zzsimos drops output - and
+// in a real process it would simply be gone), so that a lock of the code under
+// test is never left locked for the reference runs that follow in the same
+// process. LocksLeftHeld counts the cases in which that was not possible.
+//
+//go:norace
+func Held(d int32) {
+	if !active || cur < 0 {
+		return
+	}
+	t := &tasks[cur]
+	t.held += d
+	if t.held < 0 {
+		t.held = 0 // unlocked by another task than the one that locked
+	}
+}
+
+var LocksLeftHeld int64
 
 // Halt makes every other task abort at its next yield point or wait: the
 // simulated program is exiting. The caller keeps running.
